@@ -370,9 +370,95 @@ fn string_case(ctx: &mut Ctx, rng: &mut Rng) {
     }
 }
 
+/// expressions over ALL literal kinds (null, booleans, strings, mysterious mixed with numbers):
+/// whatever the folder reports for them must be what the interpreter prints
+fn mixed_literal_case(ctx: &mut Ctx, rng: &mut Rng) {
+    fn leaf(rng: &mut Rng) -> Expr {
+        match rng.below(9) {
+            0 | 1 => Expr::Prim(Prim::Lit(Lit::Null)),
+            2 => Expr::Prim(Prim::Lit(Lit::Bool(rng.coin()))),
+            3 => Expr::Prim(Prim::Lit(Lit::Mysterious)),
+            4 => strlit(*rng.pick(&["", "2", "abc", "1e1"])),
+            _ => num(*rng.pick(&[0.0, 1.0, 2.0, 0.5, 10.0])),
+        }
+    }
+    fn gen(rng: &mut Rng, depth: usize, level: u8) -> Expr {
+        if depth == 0 || level >= 4 {
+            return if rng.chance(1, 6) { Expr::Un(UnOp::Minus, Box::new(leaf(rng))) } else { leaf(rng) };
+        }
+        match rng.below(3) {
+            0 => leaf(rng),
+            1 if level <= 3 => {
+                let op = if rng.coin() { BinOp::Multiply } else { BinOp::Divide };
+                let l = gen(rng, depth - 1, 3);
+                let r = if rng.chance(1, 4) { vec![leaf(rng), leaf(rng)] } else { vec![gen(rng, depth - 1, 4)] };
+                Expr::Bin(op, Box::new(l), r)
+            }
+            _ if level <= 2 => {
+                let op = if rng.coin() { BinOp::Plus } else { BinOp::Minus };
+                let l = gen(rng, depth - 1, 2);
+                let r = if rng.chance(1, 4) { vec![leaf(rng), leaf(rng)] } else { vec![gen(rng, depth - 1, 3)] };
+                Expr::Bin(op, Box::new(l), r)
+            }
+            _ => leaf(rng),
+        }
+    }
+    let d = rng.range(1, 3);
+    let e = gen(rng, d, 2);
+    let mut ss = prelude();
+    ss.push(say(e));
+    let tree = Program::single(ss);
+    let text = match render(&tree, &Spelling::canonical(), rng) {
+        Ok(r) => r.text,
+        Err(_) => return,
+    };
+    let prog = match mon::parse_quiet(&text) {
+        Ok(p) => p,
+        Err(_) => return,
+    };
+    let expr = match find_output_expr(&prog) {
+        Some(e) => e,
+        None => return,
+    };
+    ctx.eval();
+    ctx.count("mixed_literal_expressions");
+    let case = || Json::obj().with("src", Json::s(&text));
+    let num_folded = mon::guarded(|| NumericConstantFolder.visit_expression(expr).ok()).unwrap_or(None);
+    let str_folded = mon::guarded(|| SimpleStringConstantFolder.visit_expression(expr).ok()).unwrap_or(None);
+    let want = match (&num_folded, &str_folded) {
+        (Some(v), _) => Some(format!("{}\n", v)),
+        (None, Some(s)) => Some(format!("{}\n", s.value)),
+        _ => None,
+    };
+    if let Some(want) = want {
+        ctx.count("mixed_literal_expressions_folded");
+        match mon::exec_guarded(&prog, b"", &ExecOpts::default()) {
+            ExecOutcome::Done(run) => {
+                let got = String::from_utf8_lossy(&run.stdout).to_string();
+                if run.result.is_err() || got != want {
+                    ctx.violation(
+                        "folded_value_differs_from_execution:mixed_literals",
+                        &format!("folder says {:?}, the interpreter printed {:?} ({:?})", want, got, run.result),
+                        case(),
+                    );
+                } else {
+                    ctx.count("folded_values_compared_with_execution");
+                    ctx.nontrivial(hash_str(&text));
+                }
+            }
+            ExecOutcome::Panicked(p, _) => {
+                ctx.panic_outcome("exec", &p, case());
+            }
+        }
+    }
+    ctx.sites.absorb();
+}
+
 pub fn run(ctx: &mut Ctx) {
     let n = ctx.size(60_000, 2_000_000);
     ctx.cases("numeric", n, |ctx, rng, _| case(ctx, rng));
+    let n = ctx.size(30_000, 1_000_000);
+    ctx.cases("mixed_literals", n, |ctx, rng, _| mixed_literal_case(ctx, rng));
     let n = ctx.size(10_000, 300_000);
     ctx.cases("poetic", n, |ctx, rng, _| poetic_case(ctx, rng));
     let n = ctx.size(6_000, 100_000);
